@@ -1389,8 +1389,10 @@ pub fn codegen(
     #[cfg(test)]
     const MAX_ITERATIONS: usize = 50;
 
+    // Far more passes than any realistic chain of forward references needs; programs whose passes keep
+    // contradicting each other would otherwise be assembled forever
     #[cfg(not(test))]
-    const MAX_ITERATIONS: usize = usize::MAX;
+    const MAX_ITERATIONS: usize = 200;
 
     let mut prev_undefined = HashSet::new();
     let mut prev_errors = Diagnostics::default().with_code_map(&ctx.tree.code_map);
@@ -1479,6 +1481,16 @@ pub fn codegen(
         errors = Diagnostics::default().with_code_map(&ctx.tree.code_map);
 
         ctx.next_pass();
+    }
+
+    if ctx.pass_idx == MAX_ITERATIONS {
+        // None of the bail-out rules fired: report that instead of a binary that depends on where we stopped
+        let mut errors = prev_errors;
+        errors.push(Diagnostic::error().with_message(format!(
+            "the program did not converge after {} passes",
+            MAX_ITERATIONS
+        )));
+        return (Some(ctx), errors);
     }
 
     // We're done!
